@@ -11,6 +11,9 @@ Scenario lines (see lean/DesperModel/Disp.lean for the model's reading of the sa
 Observations:  events <cid> <mapping> | cb <oid|None> <method> <argtoken> | ish <oid> <0|1>
                | gone <oid> | res ok|raised <Name>
 """
+import gc
+import weakref
+
 import desper
 from desper.events import EventDispatcher, event_handler
 
@@ -80,6 +83,7 @@ def parse_ops(toks):
 class Run:
     def __init__(self, lines, make_dispatcher=EventDispatcher):
         self.obs = []
+        self.dropped = []
         self.objs = {}
         self.classes = []
         self.reactions = {}
@@ -176,6 +180,7 @@ class Run:
             elif kind == 'remove':
                 self.disp.remove_handler(self.objs[oid])
             elif kind == 'drop':
+                self.dropped.append((oid, weakref.ref(self.objs[oid])))
                 del self.objs[oid]
             else:
                 self.obs.append(f'ish {oid} {int(self.disp.is_handler(self.objs[oid]))}')
@@ -204,6 +209,13 @@ class Run:
         except Exception as e:        # noqa
             out = 'raised ' + exc_name(e)
         self.obs.append('res ' + out)
+        # runtime part of C10: nothing may keep a dropped handler alive
+        for oid, wr in self.dropped:
+            if wr() is not None:
+                gc.collect()
+            if wr() is not None:
+                self.obs.append(f'leak {oid}')
+        self.dropped = [d for d in self.dropped if d[1]() is not None]
 
     def go(self):
         self.build()
